@@ -351,12 +351,15 @@ func (in *interp) node(n *Node, env *Env, parent string) {
 				in.slot = saved
 			}
 		}
-		in.slot = append(in.slot, block)
+		// copy on push: the block closure keeps the caller's stack, which must
+		// not share a backing array with stacks pushed later
+		outer := in.slot
+		in.slot = append(append(make([]func(), 0, len(outer)+1), outer...), block)
 		in.list(n.Callee.Body, cenv, "template", n.Callee.End, false)
 		if n.Callee.End != SepNone {
 			e.ws("template-end")
 		}
-		in.slot = in.slot[:len(in.slot)-1]
+		in.slot = outer
 	case KSlot:
 		if len(in.slot) > 0 {
 			if b := in.slot[len(in.slot)-1]; b != nil {
